@@ -336,46 +336,39 @@ macro_rules! cast_az_overflowing {
 // A proof under this stub is a proof for every deterministic scalar operation, in particular for the
 // real one (which is pure and panic-free), on all f32 bit patterns (NaN payloads, infinities,
 // subnormals, signed zeros included). The table is only written by the straight-line seeding code, so
-// all indices are concrete and the model is loop-free (the scans are unrolled over literal slots).
+// all indices are concrete and the model is loop-free (the scans are unrolled over the slots).
 
 pub const UF_CAP: usize = 64;
-pub struct UfTable {
-    n: usize,
-    k0: [u32; UF_CAP],
-    k1: [u32; UF_CAP],
-    k2: [u32; UF_CAP],
-    k3: [u32; UF_CAP],
-    r: [u32; UF_CAP],
-}
-pub static mut UF: UfTable = UfTable { n: 0, k0: [0; UF_CAP], k1: [0; UF_CAP], k2: [0; UF_CAP], k3: [0; UF_CAP], r: [0; UF_CAP] };
+#[derive(Clone, Copy)]
+pub struct UfEntry { used: bool, k0: u32, k1: u32, k2: u32, k3: u32, r: u32 }
+pub struct UfTable { n: usize, e: [UfEntry; UF_CAP] }
+pub static mut UF: UfTable = UfTable { n: 0, e: [UfEntry { used: false, k0: 0, k1: 0, k2: 0, k3: 0, r: 0 }; UF_CAP] };
 
 /// Defines a model with capacity `$cap` seeds: `$seed`, `$look` and the four scalar stubs built on `$look`.
-/// (Three capacities only to keep the small harnesses fast.)
+/// (Three capacities only to keep the small harnesses fast.) The scans destructure the table with an
+/// irrefutable array pattern, so they are loop-free and index-free.
 macro_rules! uf_family {
-    ($seed:ident, $look:ident, $inv:ident, $abs:ident, $rel:ident, $ulps:ident, cap $cap:literal, slots($($j:literal)+)) => {
+    ($seed:ident, $look:ident, $inv:ident, $abs:ident, $rel:ident, $ulps:ident, cap $cap:literal, slots($($e:ident)+)) => {
         pub fn $seed(k0: u32, k1: u32, k2: u32, k3: u32) {
             unsafe {
-                let t = &mut UF;
-                let n = t.n;
+                let n = UF.n;
                 assert!(n < $cap);
                 let mut res: u32 = kani::any();
-                // every earlier seed with bit-identical arguments holds the same value (by induction), so
-                // the scan order is irrelevant
-                $( if $j < n && t.k0[$j] == k0 && t.k1[$j] == k1 && t.k2[$j] == k2 && t.k3[$j] == k3 { res = t.r[$j]; } )+
-                t.k0[n] = k0;
-                t.k1[n] = k1;
-                t.k2[n] = k2;
-                t.k3[n] = k3;
-                t.r[n] = res;
-                t.n = n + 1;
+                {
+                    // every earlier seed with bit-identical arguments holds the same value (by induction), so
+                    // the scan order is irrelevant
+                    let [$($e),+, ..] = &UF.e;
+                    $( if $e.used && $e.k0 == k0 && $e.k1 == k1 && $e.k2 == k2 && $e.k3 == k3 { res = $e.r; } )+
+                }
+                UF.e[n] = UfEntry { used: true, k0, k1, k2, k3, r: res };
+                UF.n = n + 1;
             }
         }
         pub fn $look(k0: u32, k1: u32, k2: u32, k3: u32) -> u32 {
             unsafe {
-                let t = &UF;
-                let n = t.n;
                 let mut res: u32 = kani::any();
-                $( if $j < n && t.k0[$j] == k0 && t.k1[$j] == k1 && t.k2[$j] == k2 && t.k3[$j] == k3 { res = t.r[$j]; } )+
+                let [$($e),+, ..] = &UF.e;
+                $( if $e.used && $e.k0 == k0 && $e.k1 == k1 && $e.k2 == k2 && $e.k3 == k3 { res = $e.r; } )+
                 res
             }
         }
@@ -385,9 +378,9 @@ macro_rules! uf_family {
         pub fn $ulps(a: &f32, b: &f32, e: f32, m: u32) -> bool { $look(a.to_bits(), b.to_bits(), e.to_bits(), m) & 1 == 1 }
     };
 }
-uf_family! {uf4_seed, uf4_look, uf4_f32_inv, uf4_f32_abs_diff_eq, uf4_f32_relative_eq, uf4_f32_ulps_eq, cap 4, slots(0 1 2 3)}
-uf_family! {uf16_seed, uf16_look, uf16_f32_inv, uf16_f32_abs_diff_eq, uf16_f32_relative_eq, uf16_f32_ulps_eq, cap 16, slots(0 1 2 3 4 5 6 7 8 9 10 11 12 13 14 15)}
-uf_family! {uf64_seed, uf64_look, uf64_f32_inv, uf64_f32_abs_diff_eq, uf64_f32_relative_eq, uf64_f32_ulps_eq, cap 64, slots(0 1 2 3 4 5 6 7 8 9 10 11 12 13 14 15 16 17 18 19 20 21 22 23 24 25 26 27 28 29 30 31 32 33 34 35 36 37 38 39 40 41 42 43 44 45 46 47 48 49 50 51 52 53 54 55 56 57 58 59 60 61 62 63)}
+uf_family! {uf4_seed, uf4_look, uf4_f32_inv, uf4_f32_abs_diff_eq, uf4_f32_relative_eq, uf4_f32_ulps_eq, cap 4, slots(e0 e1 e2 e3)}
+uf_family! {uf16_seed, uf16_look, uf16_f32_inv, uf16_f32_abs_diff_eq, uf16_f32_relative_eq, uf16_f32_ulps_eq, cap 16, slots(e0 e1 e2 e3 e4 e5 e6 e7 e8 e9 e10 e11 e12 e13 e14 e15)}
+uf_family! {uf64_seed, uf64_look, uf64_f32_inv, uf64_f32_abs_diff_eq, uf64_f32_relative_eq, uf64_f32_ulps_eq, cap 64, slots(e0 e1 e2 e3 e4 e5 e6 e7 e8 e9 e10 e11 e12 e13 e14 e15 e16 e17 e18 e19 e20 e21 e22 e23 e24 e25 e26 e27 e28 e29 e30 e31 e32 e33 e34 e35 e36 e37 e38 e39 e40 e41 e42 e43 e44 e45 e46 e47 e48 e49 e50 e51 e52 e53 e54 e55 e56 e57 e58 e59 e60 e61 e62 e63)}
 
 /// Inv::inv on a float vector against the uninterpreted scalar inv.
 macro_rules! lift_inv_uf {
@@ -458,11 +451,12 @@ pub fn any_f32_half_range() -> f32 {
 /// relative_eq: `max_relative` is the concrete default (f32::EPSILON); epsilon / max_ulps fully symbolic.
 macro_rules! approx_real {
     ($h_abs:ident, $h_rel:ident, $h_ulps:ident, $w_abs:ident, $w_rel:ident, $w_ulps:ident,
-     $Ty:ty, $mk:expr, [$(($($acc:tt)+))+], $sol:ident) => {
+     $Ty:ty, $mk:expr, [$(($($acc:tt)+))+], $sol:ident $(, unwind $u:literal)?) => {
         #[kani::ensures(|r| *r == (true $(&& AbsDiffEq::abs_diff_eq(&a $($acc)+, &b $($acc)+, eps))+))]
         fn $w_abs(a: $Ty, b: $Ty, eps: f32) -> bool { AbsDiffEq::abs_diff_eq(&a, &b, eps) }
         #[kani::proof_for_contract($w_abs)]
         #[kani::solver($sol)]
+        $(#[kani::unwind($u)])?
         fn $h_abs() {
             let a: $Ty = $mk;
             let b: $Ty = $mk;
@@ -473,6 +467,7 @@ macro_rules! approx_real {
         fn $w_rel(a: $Ty, b: $Ty, eps: f32, max_rel: f32) -> bool { RelativeEq::relative_eq(&a, &b, eps, max_rel) }
         #[kani::proof_for_contract($w_rel)]
         #[kani::solver($sol)]
+        $(#[kani::unwind($u)])?
         fn $h_rel() {
             let a: $Ty = $mk;
             let b: $Ty = $mk;
@@ -483,6 +478,7 @@ macro_rules! approx_real {
         fn $w_ulps(a: $Ty, b: $Ty, eps: f32, max_ulps: u32) -> bool { UlpsEq::ulps_eq(&a, &b, eps, max_ulps) }
         #[kani::proof_for_contract($w_ulps)]
         #[kani::solver($sol)]
+        $(#[kani::unwind($u)])?
         fn $h_ulps() {
             let a: $Ty = $mk;
             let b: $Ty = $mk;
